@@ -132,8 +132,16 @@ def allowedMutationSites : List (String × String × String × String × String)
   ("microschc.ruler.ruler", "Ruler.__init__", "self", "attr:rules", "constructor initialises its own object")
 ]
 
-theorem C16_sites : Gen.schcMutationSites = allowedMutationSites.map (fun s => (s.1, s.2.1, s.2.2.1, s.2.2.2.1)) := by
-  decide
+/-- a receiver that is a list literal or a comprehension evaluated in the same call: whatever is done to that container
+    (append, extend, item assignment, sort) cannot reach an object the caller holds -/
+def freshContainer (receiver : String) : Bool := receiver == "«[]»" || receiver == "«[…]»" || receiver == "«DictComp»"
+
+/-- every mutation site the translator finds in the SCHC-level code acts on a container created in the same call, or is one
+    of the reviewed sites. (Stated as an inclusion: a site that disappears, or a new helper that fills its own fresh list,
+    changes nothing; a new site on `self`, on a parameter or on anything reached from them has to be reviewed.) -/
+theorem C16_sites : Gen.schcMutationSites.all (fun s =>
+    freshContainer s.2.2.1 || (allowedMutationSites.map (fun a => (a.1, a.2.1, a.2.2.1, a.2.2.2.1))).contains s) = true := by
+  decide +kernel
 
 /-- non-vacuity of part 1: a right-padded operand survives value(), &, ==, hash and + unchanged -/
 example :
